@@ -4,7 +4,8 @@ pub fn shift_left_small(limbs: &mut [u64], amount: usize) -> u64 {
     let mut overflow = 0;
     for limb in limbs {
         let value = (*limb << amount) | overflow;
-        overflow = *limb >> (64 - amount);
+        // Two steps so that `amount == 0` does not shift by the full width.
+        overflow = (*limb >> 1) >> (63 - amount);
         *limb = value;
     }
     overflow
@@ -17,7 +18,8 @@ pub fn shift_right_small(limbs: &mut [u64], amount: usize) -> u64 {
     let mut overflow = 0;
     for limb in limbs.iter_mut().rev() {
         let value = (*limb >> amount) | overflow;
-        overflow = *limb << (64 - amount);
+        // Two steps so that `amount == 0` does not shift by the full width.
+        overflow = (*limb << 1) << (63 - amount);
         *limb = value;
     }
     overflow
